@@ -92,6 +92,7 @@ type VerifOp struct {
 	BodyExpr   string    // source text of the nested program
 	BodyParams []string  // parameter names for push.func
 	BodyLazy   bool      // nested value has no precompiled code (compiled at first call)
+	Kind       string    // kind of the operand: nil int float string span stinfo value other
 	StOp       string    // st.mod operator
 	StText     string    // st.mod text
 	Text       string    // CodeString()
@@ -183,20 +184,29 @@ func verifConvertCode(code []ByteCode, n int, depth int) []VerifOp {
 			}()
 			op.Text = c.CodeString()
 		}()
+		op.Kind = "other"
 		switch v := c.Value.(type) {
 		case nil:
 			op.OperandNil = true
+			op.Kind = "nil"
 		case IntType:
 			op.HasInt = true
 			op.Int = int64(v)
+			op.Kind = "int"
+		case float64:
+			op.Kind = "float"
 		case string:
 			op.Str = v
+			op.Kind = "string"
 		case BufferSpan:
 			op.Span = [2]int64{int64(v.Begin), int64(v.End)}
+			op.Kind = "span"
 		case StInfo:
 			op.StOp = v.Op
 			op.StText = v.Text
+			op.Kind = "stinfo"
 		case *VMValue:
+			op.Kind = "value"
 			if depth < 64 && v != nil {
 				switch v.TypeId {
 				case VMTypeFunction:
